@@ -412,6 +412,7 @@ Definition thr_wf (t : tpc) : Prop :=
   match t with
   | TWait x _ (Bif pr _) | TVer x _ (Bif pr _) => hok x /\ forall p, In p pr -> P p
   | THd0 (Some x) | THd0c (Some x) | THd1 _ (Some x) => hok x
+  | TRun _ _ x (SL1 nh) _ => h_height nh = h_height x
   | _ => True
   end.
 
@@ -568,7 +569,8 @@ Proof.
     + destruct (ranges_head _); cbn; (apply thr_wf_upd; [exact HT|]); destruct a; exact Ht || exact I.
     + cbn. apply thr_wf_upd; [exact HT|]. destruct a; exact Ht || exact I.
     + brk; cbn; (apply thr_wf_upd; [exact HT|]); exact I.
-    + destruct st; brk; cbn; (apply thr_wf_upd; [exact HT|]); exact I.
+    + destruct st; brk; cbn; (apply thr_wf_upd; [exact HT|]); try exact I.
+      cbn. match goal with E : shim_check _ _ = ShimOk _ |- _ => apply shim_one_ok in E; exact E end.
 Qed.
 
 
@@ -865,9 +867,10 @@ Proof.
   - destruct (ranges_head (c_pend c)); fthr c i tt En HI.
   - fthr c i tt En HI.
   - destruct a as [x|]; [destruct (_ <=? _)|]; fthr c i tt En HI.
-  - assert (HPx : P x) by (apply (thr_P c i _ x HI En); left; reflexivity).
+  - assert (HPx : P x) by (apply (thr_P c i _ x HI En); cbn [thr_hdrs]; apply in_or_app; right; left; reflexivity).
     destruct (cache_P c HI) as [Hct Hck].
-    destruct st.
+    pose proof (proj1 (Forall_forall _ _) (i_thr c HI) _ (nth_error_In _ _ En)) as Hwf.
+    destruct st as [|nh| | | |].
     + (* SL0: the shim decides for [x] *)
       rewrite (shim_single (c_cache c) x Hck).
       destruct (N.ltb_spec (h_height x) (h_height (c_cache c))) as [Hlt|Hge].
@@ -883,14 +886,27 @@ Proof.
           - apply U in H. destruct H as [[<-|[]]|H]; [exact Hcov|tauto].
           - apply R in H. destruct H as [[]|H]. tauto. }
         split; [apply (closed_same (hts c)); [apply (i_closed c HI)|exact Hm]|]. cbn. apply Hm. apply (i_cache c HI).
-      * destruct (N.eqb_spec (h_height x) (h_height (c_cache c) + 1)) as [Ex|Hne].
+      * destruct ((h_height x =? h_height (c_cache c)) && (h_id x =? h_id (c_cache c))) eqn:Ed.
+        { (* the head itself again: its height is covered *)
+          apply Bool.andb_true_iff in Ed. destruct Ed as [Ed _]. apply N.eqb_eq in Ed.
+          split; [apply (i_pc c HI)|].
+          assert (Hcov : In (h_height x) (hts c)) by (rewrite Ed; apply (i_cache c HI)).
+          assert (Hm : forall n, In n (hts (set_thr i (TRun mu res x (SL1 (c_cache c)) rest) c)) <-> In n (hts c)).
+          { intros n. rewrite !in_hts. cbn. rewrite in_hts in Hcov.
+            pose proof (mthr_upd i (TRun mu res x (SL1 (c_cache c)) rest) (c_thr c) n) as U.
+            pose proof (mthr_rev i _ (TRun mu res x (SL1 (c_cache c)) rest) (c_thr c) n En) as R. cbn in U, R.
+            split; (intros [H|[H|H]]; [tauto|tauto|]).
+            - apply U in H. destruct H as [[<-|[]]|H]; [exact Hcov|tauto].
+            - apply R in H. destruct H as [[]|H]. tauto. }
+          split; [apply (closed_same (hts c)); [apply (i_closed c HI)|exact Hm]|]. cbn. apply Hm. apply (i_cache c HI). }
+        destruct (N.eqb_spec (h_height x) (h_height (c_cache c) + 1)) as [Ex|Hne].
         -- (* adjacent: reserve the next height *)
            split; [apply (i_pc c HI)|].
-           assert (Hm : forall n, In n (hts (set_thr i (TRun mu res x SL1 rest) c)) <-> In n (hts c) \/ In n (map h_height [x])).
+           assert (Hm : forall n, In n (hts (set_thr i (TRun mu res x (SL1 x) rest) c)) <-> In n (hts c) \/ In n (map h_height [x])).
            { intros n. rewrite !in_hts. cbn.
-             pose proof (mthr_upd i (TRun mu res x SL1 rest) (c_thr c) n) as U.
-             pose proof (mthr_rev i _ (TRun mu res x SL1 rest) (c_thr c) n En) as R.
-             pose proof (mthr_new i (TRun mu res x SL1 rest) (c_thr c) n Hi) as Nw. cbn in U, R, Nw.
+             pose proof (mthr_upd i (TRun mu res x (SL1 x) rest) (c_thr c) n) as U.
+             pose proof (mthr_rev i _ (TRun mu res x (SL1 x) rest) (c_thr c) n En) as R.
+             pose proof (mthr_new i (TRun mu res x (SL1 x) rest) (c_thr c) n Hi) as Nw. cbn in U, R, Nw.
              split.
              - intros [H|[H|H]]; [tauto|tauto|]. apply U in H. tauto.
              - intros [[H|[H|H]]|H]; [tauto|tauto| |tauto]. apply R in H. destruct H as [[]|H]. tauto. }
@@ -899,9 +915,10 @@ Proof.
               intros y [<-|[]]. destruct HPx. assumption.
            ++ cbn. apply Hm. left. apply (i_cache c HI).
         -- fthr c i tt En HI.
-    + (* SL1: cache := x, which is reserved *)
+    + (* SL1: cache := nh, whose height is x's, which is reserved *)
+      cbn [thr_wf] in Hwf.
       split; [apply (i_pc c HI)|].
-      assert (Hm : forall n, In n (hts (set_thr i (TRun mu res x SL2 rest) (c <| c_cache := x |>))) <-> In n (hts c)).
+      assert (Hm : forall n, In n (hts (set_thr i (TRun mu res x SL2 rest) (c <| c_cache := nh |>))) <-> In n (hts c)).
       { intros n. rewrite !in_hts. cbn.
         pose proof (mthr_upd i (TRun mu res x SL2 rest) (c_thr c) n) as U.
         pose proof (mthr_rev i _ (TRun mu res x SL2 rest) (c_thr c) n En) as R.
@@ -911,7 +928,7 @@ Proof.
         - apply U in H. tauto.
         - apply R in H. tauto. }
       split; [apply (closed_same (hts c)); [apply (i_closed c HI)|exact Hm]|].
-      cbn. apply in_hts. right; right. cbn. apply (mthr_new i (TRun mu res x SL2 rest) (c_thr c) _ Hi). left. reflexivity.
+      cbn. rewrite Hwf. apply in_hts. right; right. cbn. apply (mthr_new i (TRun mu res x SL2 rest) (c_thr c) _ Hi). left. reflexivity.
     + (* SL2: the reserved header is written *)
       split; [apply (i_pc c HI)|].
       assert (Hm : forall n, In n (hts (set_thr i (TRun mu res x SL3 rest) (c <| c_store ::= rs_append [x] |>))) <-> In n (hts c)).
@@ -1082,28 +1099,54 @@ Qed.
 
 End inv2.
 
-(** ** the shim's check path accepts exactly the runs consecutive from the cached head *)
+(** ** the shim's check path accepts exactly the lists that walk on from the
+    cached head: each header is the rolling head again (same height, same hash)
+    or its successor in height *)
+Fixpoint wrun (cur : hdr) (hs : list hdr) : Prop :=
+  match hs with
+  | [] => True
+  | h :: r =>
+    (h_height h = h_height cur /\ h_id h = h_id cur /\ wrun cur r) \/
+    (~ (h_height h = h_height cur /\ h_id h = h_id cur) /\ h_height h = h_height cur + 1 /\ wrun h r)
+  end.
+
 Lemma shim_walk_iff c hs :
   (forall y, In y (c :: hs) -> hok y) ->
-  (exists nh, shim_walk c hs = Some nh) <-> consec (c :: hs).
+  (exists nh, shim_walk c hs = Some nh) <-> wrun c hs.
 Proof.
   revert c. induction hs as [|a l IH]; intros c Hk.
   - split; [intros _; exact I|intros _; exists c; reflexivity].
   - rewrite shim_walk_cons. rewrite wrap_succ by (apply (Hk c); left; reflexivity).
-    assert (Hk' : forall y, In y (a :: l) -> hok y) by (intros y Hy; apply Hk; right; exact Hy).
-    destruct (N.eqb_spec (h_height a) (h_height c + 1)) as [E|Hne].
-    + rewrite (IH a Hk'). split; [intros H; split; [exact E|exact H]|intros [_ H]; exact H].
-    + split; [intros (nh & Hd); discriminate|intros [E _]; contradiction].
+    assert (Hkc : forall y, In y (c :: l) -> hok y) by (intros y [<-|Hy]; [apply Hk; left; reflexivity|apply Hk; right; right; exact Hy]).
+    assert (Hka : forall y, In y (a :: l) -> hok y) by (intros y Hy; apply Hk; right; exact Hy).
+    cbn [wrun].
+    destruct (N.eqb_spec (h_height a) (h_height c)) as [E1|N1]; destruct (N.eqb_spec (h_id a) (h_id c)) as [E2|N2]; cbn [andb].
+    + rewrite (IH c Hkc). split; [intros H; left; auto|intros [(_ & _ & H)|(Hn & _)]; [exact H|exfalso; apply Hn; auto]].
+    + destruct (N.eqb_spec (h_height a) (h_height c + 1)) as [E|Hne]; [lia|].
+      split; [intros (nh & Hd); discriminate|intros [(_ & E & _)|(_ & E & _)]; [contradiction|lia]].
+    + destruct (N.eqb_spec (h_height a) (h_height c + 1)) as [E|Hne].
+      * rewrite (IH a Hka). split; [intros H; right; split; [intros [E' _]; contradiction|auto]|intros [(E' & _)|(_ & _ & H)]; [contradiction|exact H]].
+      * split; [intros (nh & Hd); discriminate|intros [(E' & _)|(_ & E & _)]; contradiction].
+    + destruct (N.eqb_spec (h_height a) (h_height c + 1)) as [E|Hne].
+      * rewrite (IH a Hka). split; [intros H; right; split; [intros [E' _]; contradiction|auto]|intros [(E' & _)|(_ & _ & H)]; [contradiction|exact H]].
+      * split; [intros (nh & Hd); discriminate|intros [(E' & _)|(_ & E & _)]; contradiction].
 Qed.
 
 Lemma shim_check_ok_iff c hs :
   hs <> [] -> (forall y, In y (c :: hs) -> hok y) -> h_height c <= h_height (hd hdr_nil hs) ->
-  (exists nh, shim_check c hs = ShimOk nh) <-> consec (c :: hs).
+  (exists nh, shim_check c hs = ShimOk nh) <-> wrun c hs.
 Proof.
   intros Hne Hk Hle. destruct hs as [|a l]; [contradiction|]. cbn [hd] in Hle.
   rewrite <- (shim_walk_iff c (a :: l) Hk). unfold shim_check.
   destruct (N.leb_spec (h_height c) (h_height a)); [|lia].
   destruct (shim_walk c (a :: l)) as [z|]; split; intros (nh & Hd); try discriminate; eexists; reflexivity.
+Qed.
+
+(** in particular a run consecutive from the cached head is accepted *)
+Lemma consec_wrun c hs : consec (c :: hs) -> wrun c hs.
+Proof.
+  revert c. induction hs as [|a l IH]; intros c Hc; [exact I|].
+  destruct Hc as [Ha Hc]. cbn [wrun]. right. split; [intros [E _]; lia|]. split; [exact Ha|apply IH; exact Hc].
 Qed.
 
 (** a range answer that is not consecutive from the cached head is refused as
